@@ -97,7 +97,7 @@ func New(w World, opts NodeOpts) (*Chain, error) {
 		ao[server.FlagIAVLCacheSize] = opts.IAVLCache
 	}
 	var bopts []func(*baseapp.BaseApp)
-	bopts = append(bopts, baseapp.SetChainID(w.chainID()))
+	bopts = append(bopts, baseapp.SetChainID(w.CID()))
 	if opts.MinGasPrices != "" {
 		bopts = append(bopts, baseapp.SetMinGasPrices(opts.MinGasPrices))
 	}
@@ -282,7 +282,7 @@ func (c *Chain) RunBlock(b Block) (res *abci.ResponseFinalizeBlock, err error) {
 
 // CommittedCtx returns a read context over the last committed state.
 func (c *Chain) CommittedCtx() sdk.Context {
-	hdr := cmtproto.Header{ChainID: c.World.chainID(), Height: c.Height, Time: c.Time}
+	hdr := cmtproto.Header{ChainID: c.World.CID(), Height: c.Height, Time: c.Time}
 	return readCtx(c.App.NewUncachedContext(false, hdr))
 }
 
